@@ -90,9 +90,14 @@ def baseUnits (c : Compound) : List (UnitKey × Int) × Powers :=
 /-- `Compound::is_scale`. -/
 def isScale (c : Compound) (st : State) : Bool := c.length == 1 && st.power == 1
 
-/-- `Compound::checked_pow` (the `i32` overflow branch is outside the model). -/
+/-- The compound `Compound::checked_pow` builds when no power overflows. -/
 def checkedPow (c : Compound) (n : Int) : Compound :=
   (c.map (fun e => (e.1, { e.2 with power := e.2.power * n }))).filter (fun e => e.2.power ≠ 0)
+
+/-- `state.power.checked_mul(n)` succeeds for every unit: all products fit an `i32`
+(otherwise `checked_pow` is `None`). -/
+def powFits (c : Compound) (n : Int) : Bool :=
+  c.all (fun e => decide (-2147483648 ≤ e.2.power * n) && decide (e.2.power * n ≤ 2147483647))
 
 /-- `apply_conversion`. -/
 def applyConversion (pow : Int) (ratio : Rat) (scale : Bool) : Conversion → Except CErr Rat
